@@ -187,7 +187,7 @@ pub struct CandCase {
 
 fn cand_strategy() -> BoxedStrategy<CandCase> {
     (
-        proptest::collection::vec(0u16..60, 0..30),
+        prop_oneof![3 => proptest::collection::vec(0u16..60, 0..30), 1 => proptest::collection::vec(0u16..400, 24..48)],
         prop_oneof![1 => Just(Addr::Peer(9999)), 3 => addr_strategy()],
         prop_oneof![2 => Just(RangeSel::None), 4 => any::<u16>().prop_map(RangeSel::AtPeer), 3 => any::<u16>().prop_map(RangeSel::Frac), 1 => Just(RangeSel::Zero), 1 => Just(RangeSel::Max)],
     )
@@ -254,6 +254,12 @@ fn check_cand(c: &CandCase, ctx: &mut Ctx) {
     if others != want_others || others.len() < full || others.len() > 20 {
         ctx.fail("closest_k_local_peers_differ_from_reference", format!("got {} peers (besides self), {} known; not the nearest in ascending order", others.len(), by_self.len()));
     }
+    // "the K closest" is a list of at most K = 20 entries, whether or not the node lists itself in it
+    // (driver.rs: "Limit ourselves to K_VALUE (20) peers"): self + 20 others is one too many
+    if k_view.len() > 20 {
+        ctx.fail("closest_k_local_peers_longer_than_k", format!("the K-closest view has {} entries (self listed: {}), K = 20; {} peers known", k_view.len(), k_view.contains(&me), by_self.len()));
+    }
+    ctx.label_if(by_self.len() >= 21, "more_peers_known_than_k");
     // GetCloseGroupLocalPeers: the 5 nearest to the key, ascending
     let (tx, mut rx) = oneshot::channel();
     let _ = sim.handle_local(LocalSwarmCmd::GetCloseGroupLocalPeers { key: target.clone(), sender: tx });
